@@ -149,6 +149,12 @@ class DulReactorTask(Task):
                  and me.attrs.get("_kill_thread") is True, detail=f"{how}: {names} {flags}")
         # ---- C08
         I.ob(f"{P8}/the-event-queue-is-never-read-with-a-blocking-get", all(e.args[0] is False for e in gets), detail=repr(gets))
+        # a peer that keeps the socket busy (or a user that keeps queueing primitives) must not keep the ARTIM timer from being
+        # looked at: every iteration that processes anything has also asked the timer, and an expired timer was reported in it (that it is asked FIRST is C05's obligation)
+        worked = prim + trans + gets
+        if worked:
+            I.ob(f"{P8}/ARTIM-expiry-is-examined-in-every-iteration-that-serves-the-peer-or-the-user",
+                 len(art) >= 1 and (art[0].args[0] is not True or len(puts) == 1), detail=repr(names))
         sl = [e for e in tr if e.name == "sleep"]
         I.ob(f"{P8}/the-only-wait-in-an-iteration-is-the-run-loop-delay", len(sl) <= 1 and all(e.args[0] is g["delay"] for e in sl))
         # ---- C09
